@@ -18,6 +18,7 @@ Correspondence with the model:
 import contextlib
 import copy
 import io
+import json
 import warnings
 
 import numpy as np
@@ -406,7 +407,10 @@ def case_rng(case):
 
 
 def find_entry(case):
-    ents = registry.elements(np.random.default_rng(list(case['reg_seed'])), only=[case['entry']])
+    if case.get('registry') == 'options':
+        ents = registry.option_elements(np.random.default_rng(list(case['reg_seed'])))
+    else:
+        ents = registry.elements(np.random.default_rng(list(case['reg_seed'])), only=[case['entry']])
     for e in ents:
         if e.name == case['entry']:
             return e
@@ -787,6 +791,43 @@ FLIP_LAYOUTS = ('C', 'F', 'strided')
 # the same arithmetic in the same precision (the element's caches may have been computed at the other precision
 # and cast, hence not 0)
 FLIP_TOL = {'complex128': 1e-10, 'complex64': 2e-5}
+# the library's configuration switches (hcipy/config/default_config.yaml): the field style is a coordinate of every STEP
+# (6th entry of a step; absent = 'old'), the Fourier options are fixed per HISTORY (they are read when an element builds
+# its Fourier transforms): case['config'] = {dotted name: value}
+FLIP_STYLES = ('old', 'new')
+FLIP_CONFIGS = ({}, {'fourier.fft.emulate_fftshifts': False}, {'fourier.fft.method': ['numpy']}, {'fourier.fft.method': ['scipy', 'numpy']},
+                {'fourier.mft.precompute_matrices': False}, {'fourier.mft.allocate_intermediate': False},
+                {'fourier.nft.precompute_matrices': True},
+                {'fourier.fft.emulate_fftshifts': False, 'fourier.mft.precompute_matrices': False, 'fourier.mft.allocate_intermediate': False})
+
+
+def set_config(options, style=None):
+    """Set configuration switches of the library under test; returns the function that puts the previous values back."""
+    import hcipy
+    conf = hcipy.Configuration()
+    todo = dict(options or {})
+    if style is not None:
+        todo['core.use_new_style_fields'] = (style == 'new')
+    old = []
+    for name, value in todo.items():
+        node = conf
+        parts = name.split('.')
+        for q in parts[:-1]:
+            node = node[q]
+        old.append((node, parts[-1], node[parts[-1]]))
+        node[parts[-1]] = value
+
+    def restore():
+        for node, key, value in reversed(old):
+            node[key] = value
+    return restore
+
+
+def buffer_of(field):
+    """The ndarray that holds the values of a field of either style (a new-style field is a wrapper: identity of the
+    wrapper says nothing about the memory; aliasing is decided with np.shares_memory on this)."""
+    d = getattr(field, 'data', None)
+    return d if isinstance(d, np.ndarray) else np.asarray(field)
 
 
 def flip_array(rng, grid, kind, dtype, layout):
@@ -810,9 +851,22 @@ def lay_out(a, dtype, layout):
 
 
 def gen_flip_steps(rng, entry, nsteps, directed):
-    """A history of calls on one element: every step = (direction, kind, precision, layout, wavelength number)."""
+    """A history of calls on one element: every step = (direction, kind, precision, layout, wavelength number, field style).
+    directed = 'styles': every direction the element has, under new-style fields, with an old-style call in between."""
     dirs = ['forward'] + (['backward'] if entry.backward_kinds else [])
     steps = []
+    if directed == 'styles':
+        wl0 = int(rng.integers(len(entry.wavelengths)))
+        for d in dirs:
+            kinds = entry.kinds if d == 'forward' else entry.backward_kinds
+            steps.append([d, kinds[int(rng.integers(len(kinds)))], FLIP_DTYPES[int(rng.integers(2))], 'C', wl0, 'new'])
+        d = dirs[int(rng.integers(len(dirs)))]
+        kinds = entry.kinds if d == 'forward' else entry.backward_kinds
+        steps.append([d, kinds[int(rng.integers(len(kinds)))], FLIP_DTYPES[int(rng.integers(2))], FLIP_LAYOUTS[int(rng.integers(3))], wl0, 'old'])
+        d = dirs[int(rng.integers(len(dirs)))]
+        kinds = entry.kinds if d == 'forward' else entry.backward_kinds
+        steps.append([d, kinds[int(rng.integers(len(kinds)))], FLIP_DTYPES[int(rng.integers(2))], FLIP_LAYOUTS[int(rng.integers(3))], wl0, 'new'])
+        return steps
     wl0 = int(rng.integers(len(entry.wavelengths)))
     d0 = 'forward'
     k0 = entry.kinds[int(rng.integers(len(entry.kinds)))]
@@ -825,6 +879,7 @@ def gen_flip_steps(rng, entry, nsteps, directed):
             kind = k0 if i < 2 or len(kinds) == 1 else kinds[(kinds.index(k0) + i - 1) % len(kinds)]
             dtype = FLIP_DTYPES[(p0 + i) % 2] if i < 3 else FLIP_DTYPES[int(rng.integers(2))]
             layout = 'C' if i < 2 else FLIP_LAYOUTS[int(rng.integers(3))]
+            style = 'old' if i < 3 else FLIP_STYLES[int(rng.integers(2))]
         else:
             direction = dirs[int(rng.integers(len(dirs)))]
             kinds = entry.kinds if direction == 'forward' else entry.backward_kinds
@@ -832,7 +887,8 @@ def gen_flip_steps(rng, entry, nsteps, directed):
             dtype = FLIP_DTYPES[int(rng.integers(2))]
             layout = FLIP_LAYOUTS[int(rng.integers(3))]
             wl = wl0 if rng.random() < 0.75 else int(rng.integers(len(entry.wavelengths)))
-        steps.append([direction, kind, dtype, layout, wl])
+            style = FLIP_STYLES[int(rng.integers(2))]
+        steps.append([direction, kind, dtype, layout, wl, style])
     return steps
 
 
@@ -847,114 +903,146 @@ def run_flip(entry, case, count=None):
     bad = []
     worst = {}
     cname = entry.cls.__name__
-    el = entry.factory()
+    config = case.get('config') or {}
+    restore = set_config(config, 'old')
+    try:
+        el = entry.factory()
+    finally:
+        restore()
     history = []
 
     def fail(clause, step, what):
-        direction, kind, dtype, layout, wl = step
+        direction = step[0]
         bad.append(('flip-%s %s %s' % (clause, cname, direction),
                     'flip-%s: %s [%s; step %d = %s of the history %s on one element instance]' % (
-                        clause, what, entry.name, len(history), '/'.join(str(s) for s in step), ' -> '.join(history) or '(none)')))
+                        clause, what, entry.name, len(history), '/'.join(str(s) for s in step), ' -> '.join(history) or '(none)') + (
+                            '; configuration %s' % json.dumps(config, sort_keys=True) if config else '')))
 
     for step in case['steps']:
-        direction, kind, dtype, layout, wli = step
-        wl = entry.wavelengths[wli]
-        grid = entry.input_grid if direction == 'forward' else entry.output_grid
-        conj = entry.conj_forward if direction == 'forward' else entry.conj_backward
-        A1 = flip_array(rng, grid, kind, dtype, layout)
-        A2 = flip_array(rng, grid, kind, dtype, layout)
-        a = complex(registry.dyadic_scalar(rng, -2, 2, 2), registry.dyadic_scalar(rng, -2, 2, 2)) or (1.5 - 0.5j)
-        A3 = lay_out(a * np.asarray(A1, dtype=complex) + np.asarray(A2, dtype=complex), dtype, layout)     # exact (few bits)
-        stokes = registry.STOKES[int(rng.integers(len(registry.STOKES)))]
-        tol = FLIP_TOL[dtype]
-
-        def wavefront(A):
-            return make_wf(hcipy.Field(A, grid), kind, wl, stokes)
-
-        def guarded(element, A):
-            wf = wavefront(A)
-            keep = (np.asarray(wf.electric_field).tobytes(), str(wf.electric_field.dtype), wf.electric_field.strides, A.tobytes(),
-                    repr(wf.wavelength), id(wf.electric_field.grid))
-            outs, _ = call(element, direction, wf)
-            now = (np.asarray(wf.electric_field).tobytes(), str(wf.electric_field.dtype), wf.electric_field.strides, A.tobytes(),
-                   repr(wf.wavelength), id(wf.electric_field.grid))
-            if now != keep:
-                fail('input-modified', step, 'the wavefront passed in (or the array it was built from) was changed by %s' % direction)
-            return out_arrays(outs), [(str(o.electric_field.dtype),) + m for o, m in zip(outs, out_meta(outs))]
-
-        # the reference: a fresh element, given the same VALUES in the same precision as a plain C-contiguous array
-        # (the result is a function of the values, not of how they lie in memory); whether it accepts them decides
-        # whether the input is supported at all
+        restore = set_config(config, step[5] if len(step) > 5 else 'old')
         try:
-            ref, ref_meta = guarded(entry.factory(), np.ascontiguousarray(A1).copy())
-            supported = all(np.all(np.isfinite(x)) for x in ref)
-        except Exception:     # noqa
-            supported = False
-        if not supported:
-            if count is not None:
-                count('flip-step-unsupported-by-fresh-element:%s/%s' % (dtype, layout))
-            history.append('/'.join(str(s) for s in step) + '(unsupported)')
-            continue
-        try:
-            o1, m1 = guarded(el, A1)
-            o2, _ = guarded(el, A2)
-            o3, _ = guarded(el, A3)
-            o1b, m1b = guarded(el, A1)
-        except Exception as ex:     # noqa
-            fail('raises', step, '%s raised %s: %s (a fresh element accepts the same values as a C-contiguous array of the same precision)' % (
-                direction, type(ex).__name__, str(ex)[:120]))
-            return bad, worst
-        scale = max([1.0] + [maxabs(x) for x in ref])
-        ok, w = same(o1, ref, tol, scale)
-        if ok:
-            worst[dtype] = max(worst.get(dtype, 0.0), w / scale)
-        if not ok:
-            fail('fresh-element', step, 'the result differs from what a freshly constructed element returns for the same values '
-                 '(C-contiguous, same precision; max diff %.3g, scale %.3g, allowed %.1g relative)' % (w, scale, tol))
-        elif m1 != ref_meta:
-            fail('result-form', step, 'precision / shape / grid / wavelength / Stokes vector of the result (%s) differ from those '
-                 'a fresh element returns (%s)' % (m1[0][:2], ref_meta[0][:2]))
-        ok, w = same(o1b, o1, tol, scale)
-        if not ok or m1b != m1:
-            fail('repeat', step, 'the same call returned a different result the second time (max diff %.3g)' % w)
-        aa = np.conj(a) if conj else a
-        if len(o3) == len(o1) == len(o2) and all(x.shape == y.shape == z.shape for x, y, z in zip(o1, o2, o3)):
-            lscale = max([1.0] + [abs(a) * maxabs(x) + maxabs(y) for x, y in zip(o1, o2)])
-            ok, w = same(o3, [aa * x + y for x, y in zip(o1, o2)], 4 * tol, lscale)
+            direction, kind, dtype, layout, wli = step[:5]
+            wl = entry.wavelengths[wli]
+            grid = entry.input_grid if direction == 'forward' else entry.output_grid
+            conj = entry.conj_forward if direction == 'forward' else entry.conj_backward
+            A1 = flip_array(rng, grid, kind, dtype, layout)
+            A2 = flip_array(rng, grid, kind, dtype, layout)
+            a = complex(registry.dyadic_scalar(rng, -2, 2, 2), registry.dyadic_scalar(rng, -2, 2, 2)) or (1.5 - 0.5j)
+            A3 = lay_out(a * np.asarray(A1, dtype=complex) + np.asarray(A2, dtype=complex), dtype, layout)     # exact (few bits)
+            stokes = registry.STOKES[int(rng.integers(len(registry.STOKES)))]
+            tol = FLIP_TOL[dtype]
+
+            def wavefront(A):
+                return make_wf(hcipy.Field(A, grid), kind, wl, stokes)
+
+            def guarded(element, A):
+                wf = wavefront(A)
+                def state():
+                    sv = wf.input_stokes_vector
+                    return (np.asarray(wf.electric_field).tobytes(), str(wf.electric_field.dtype), buffer_of(wf.electric_field).strides, A.tobytes(),
+                            repr(wf.wavelength), id(wf.electric_field.grid), grid_bytes(wf.electric_field.grid),
+                            None if sv is None else np.asarray(sv).tobytes(), type(wf.electric_field).__name__)
+                keep = state()
+                outs, _ = call(element, direction, wf)
+                now = state()
+                if now != keep:
+                    fail('input-modified', step, 'the wavefront passed in (%s) was changed by %s' % (', '.join(n for n, x, y in zip(
+                        ('field values', 'field dtype', 'strides', 'the array it was built from', 'wavelength', 'grid identity', 'grid contents', 'Stokes vector', 'field class'), keep, now) if x != y), direction))
+                return out_arrays(outs), [(str(o.electric_field.dtype), type(o.electric_field).__name__) + m for o, m in zip(outs, out_meta(outs))]
+
+            # the reference: a fresh element, given the same VALUES in the same precision as a plain C-contiguous array
+            # (the result is a function of the values, not of how they lie in memory); whether it accepts them decides
+            # whether the input is supported at all
+            try:
+                ref, ref_meta = guarded(entry.factory(), np.ascontiguousarray(A1).copy())
+                supported = all(np.all(np.isfinite(x)) for x in ref)
+            except Exception:     # noqa
+                supported = False
+            if not supported:
+                if count is not None:
+                    count('flip-step-unsupported-by-fresh-element:%s/%s' % (dtype, layout))
+                history.append('/'.join(str(s) for s in step) + '(unsupported)')
+                continue
+            try:
+                o1, m1 = guarded(el, A1)
+                o2, _ = guarded(el, A2)
+                o3, _ = guarded(el, A3)
+                o1b, m1b = guarded(el, A1)
+            except Exception as ex:     # noqa
+                fail('raises', step, '%s raised %s: %s (a fresh element accepts the same values as a C-contiguous array of the same precision)' % (
+                    direction, type(ex).__name__, str(ex)[:120]))
+                return bad, worst
+            scale = max([1.0] + [maxabs(x) for x in ref])
+            ok, w = same(o1, ref, tol, scale)
             if ok:
-                worst['lin-' + dtype] = max(worst.get('lin-' + dtype, 0.0), w / lscale)
+                worst[dtype] = max(worst.get(dtype, 0.0), w / scale)
+            if not ok:
+                fail('fresh-element', step, 'the result differs from what a freshly constructed element returns for the same values '
+                     '(C-contiguous, same precision; max diff %.3g, scale %.3g, allowed %.1g relative)' % (w, scale, tol))
+            elif m1 != ref_meta:
+                fail('result-form', step, 'precision / shape / grid / wavelength / Stokes vector of the result (%s) differ from those '
+                     'a fresh element returns (%s)' % (m1[0][:2], ref_meta[0][:2]))
+            ok, w = same(o1b, o1, tol, scale)
+            if not ok or m1b != m1:
+                fail('repeat', step, 'the same call returned a different result the second time (max diff %.3g)' % w)
+            aa = np.conj(a) if conj else a
+            if len(o3) == len(o1) == len(o2) and all(x.shape == y.shape == z.shape for x, y, z in zip(o1, o2, o3)):
+                lscale = max([1.0] + [abs(a) * maxabs(x) + maxabs(y) for x, y in zip(o1, o2)])
+                ok, w = same(o3, [aa * x + y for x, y in zip(o1, o2)], 4 * tol, lscale)
+                if ok:
+                    worst['lin-' + dtype] = max(worst.get('lin-' + dtype, 0.0), w / lscale)
+                else:
+                    fail('linearity', step, '%s(a E1 + E2) differs from %s %s(E1) + %s(E2) by %.3g (scale %.3g)' % (
+                        direction, 'conj(a)' if conj else 'a', direction, direction, w, lscale))
             else:
-                fail('linearity', step, '%s(a E1 + E2) differs from %s %s(E1) + %s(E2) by %.3g (scale %.3g)' % (
-                    direction, 'conj(a)' if conj else 'a', direction, direction, w, lscale))
-        else:
-            fail('linearity', step, 'output shapes differ between inputs')
-        history.append('/'.join(str(s) for s in step))
-        if bad:
-            return bad, worst          # later steps would run on an element already known to be off
+                fail('linearity', step, 'output shapes differ between inputs')
+            history.append('/'.join(str(s) for s in step))
+            if bad:
+                return bad, worst          # later steps would run on an element already known to be off
+        finally:
+            restore()
     return bad, worst
 
 
-def flip_cases(ctx, registries):
-    """Per registry entry: one directed history (same call, precision alternating, then shape / layout flips) and
-    random ones.  Same histories in the quick and in the thorough tier (more of them in the latter)."""
+def flip_cases(ctx, registries, option_entries=()):
+    """Per registry entry: one directed history (same call, precision alternating, then shape / layout flips), one
+    directed through the field styles (every direction under new-style fields), and random ones; every history but the
+    first directed one under a configuration of the Fourier options drawn from FLIP_CONFIGS.  The entries of
+    `registry.option_elements` (constructor options at non-default values) get the same histories.
+    Same histories in the quick and in the thorough tier (more of them in the latter)."""
     rng = np.random.default_rng([ctx.seed, 6, 8])
     n_random = ctx.scale(2, 3)
     cases = []
     idx = 0
-    for k, entries in enumerate(registries):
+    groups = [(k, [ctx.seed, 6, 0, k], entries) for k, entries in enumerate(registries)]
+    if option_entries:
+        groups.append(('options', [ctx.seed, 6, 0, 7], option_entries))
+    for k, reg_seed, entries in groups:
         for e in entries:
-            for j in range(1 + n_random):
+            for j in range(2 + n_random):
                 idx += 1
-                steps = gen_flip_steps(rng, e, 4 if j == 0 else int(rng.integers(3, 6)), directed=(j == 0))
-                cases.append({'mode': 'flip', 'entry': e.name, 'registry': k, 'reg_seed': [ctx.seed, 6, 0, k],
-                              'data_seed': [ctx.seed, 6, 9, idx], 'steps': steps, 'directed': j == 0})
+                directed = {0: True, 1: 'styles'}.get(j, False)
+                steps = gen_flip_steps(rng, e, 4 if j == 0 else int(rng.integers(3, 6)), directed=directed)
+                config = {} if j == 0 else dict(FLIP_CONFIGS[int(rng.integers(len(FLIP_CONFIGS)))])
+                cases.append({'mode': 'flip', 'entry': e.name, 'registry': k, 'reg_seed': reg_seed,
+                              'data_seed': [ctx.seed, 6, 9, idx], 'steps': steps, 'directed': directed, 'config': config})
     return cases
 
 
 def run_flips(ctx, registries, by_name):
     worst_all = {}
     ctx.extra['flip_worst_relative_difference'] = worst_all
-    for case in flip_cases(ctx, registries):
+    try:
+        option_entries = registry.option_elements(np.random.default_rng([ctx.seed, 6, 0, 7]))
+    except Exception as ex:     # noqa
+        raise MachineryError('registry.option_elements cannot be built: %s: %s' % (type(ex).__name__, ex))
+    by_name = dict(by_name)
+    by_name.update({('options', e.name): e for e in option_entries})
+    ctx.extra['option_entries'] = [e.name for e in option_entries]
+    covered, missing = registry.constructor_option_coverage(list(registries[0]) + list(option_entries))
+    ctx.extra['constructor_options_given_a_non_default_value'] = covered
+    ctx.extra['constructor_options_never_given_a_non_default_value'] = missing
+    for case in flip_cases(ctx, registries, option_entries):
         e = by_name[(case['registry'], case['entry'])]
         bad, worst = run_flip(e, case, ctx.count)
         for key, what in bad:
@@ -963,8 +1051,15 @@ def run_flips(ctx, registries, by_name):
             worst_all[k] = max(worst_all.get(k, 0.0), v)
         steps = case['steps']
         ctx.count('flip-history-steps:%d' % len(steps))
-        ctx.count('flip-history:' + ('directed' if case['directed'] else 'random'))
+        ctx.count('flip-history:' + ({True: 'directed', 'styles': 'directed-field-styles'}.get(case['directed'], 'random')))
+        ctx.count('flip-config:' + (','.join('%s=%s' % (k.split('.', 1)[1], v) for k, v in sorted(case['config'].items())) or 'default'))
+        if case['registry'] == 'options':
+            ctx.count('flip-history-on-constructor-option-entry')
+        for st in steps:
+            ctx.count('flip-style:%s %s' % (st[5], st[0]))
         for a, b in zip(steps, steps[1:]):
+            if a[5] != b[5]:
+                ctx.count('flip:style %s->%s' % (a[5], b[5]))
             same_sig = a[0] == b[0] and a[4] == b[4]
             if a[2] != b[2]:
                 ctx.count('flip:precision %s->%s%s' % (a[2][7:], b[2][7:], ' (same direction+wavelength)' if same_sig else ''))
@@ -976,7 +1071,7 @@ def run_flips(ctx, registries, by_name):
                 ctx.count('flip:direction')
         ctx.count('flip-family:' + e.family)
         ctx.count('flip-failed' if bad else 'flip-ok')
-        flips = sum(1 for a, b in zip(steps, steps[1:]) if a[:4] != b[:4])
+        flips = sum(1 for a, b in zip(steps, steps[1:]) if a[:4] != b[:4] or a[5] != b[5])
         ctx.case(None, nontrivial_key=('flip', case['registry'], e.name, repr(steps)) if flips and worst else None)
 
 
@@ -1605,6 +1700,93 @@ def keep_excited_selftest(ctx):
                                           'flagged': flagged, 'homogeneous': homogeneous_ok})
 
 
+def first_fft_tie(ctx):
+    """The effect programs `fourierFilter[padded]` / `fourierFilter[unpadded]` (Model/Elements.lean; theorems
+    fourierFilter_safeAll, fourierFilter_firstFft) against a real `hcipy.FourierFilter`: the model says what the FIRST
+    Fourier transform of `_operation` is handed — (its argument uses the caller's buffer, it may overwrite its argument).
+    Observed by spying on `fftn` as the filter calls it (np.shares_memory of the argument's buffer with the array the
+    caller's field was built from; the `overwrite_x` flag), for q = 1 / 2 / 3 x field style x dtype x tensor shape x
+    direction, directly and through FresnelPropagator(zero_padding=q).  The seeded class
+    `fourierFilterIdentityTestOld[wrapper,unpadded]` must be rejected by the model's checker."""
+    import hcipy
+    from hcipy.fourier import fourier_operations as fo
+    names = ('fourierFilter[padded]', 'fourierFilter[unpadded]')
+    olds = [(ns, sd, pd) for ns in (0, 1) for sd in (0, 1) for pd in (0, 1)]
+    answers = ctx.model(['C06 first-fft ' + n for n in names] + ['C06 first-fft-old %d %d %d' % o for o in olds])
+    pred = {}
+    for n, ans in zip(list(names) + olds, answers):
+        toks = dict(t.split('=', 1) for t in ans.split(' ')[1:] if '=' in t)
+        if not ans.startswith('ok ') or set(toks) != {'safe', 'sharesInput', 'overwrite'}:
+            raise MachineryError('unexpected first-fft answer %r' % ans)
+        pred[n] = tuple({'1': 'true', '0': 'false'}.get(toks[k], toks[k]) for k in ('safe', 'sharesInput', 'overwrite'))
+    if pred[names[0]][0] != 'true' or pred[names[1]][0] != 'true':
+        ctx.disagree('C06 first-fft', {'note': 'the shipped programs must be accepted', 'model': {str(k): v for k, v in pred.items()}})
+    for ns, sd, pd in olds:
+        # the identity-test class as the seeded regression describes it: harmful exactly for new-style fields that already
+        # have the dtype and no padding; the first FFT may overwrite whenever there is padding or the cast "is not" the field
+        want = ('false' if (ns and sd and not pd) else 'true', 'false' if (pd or not sd) else 'true', 'true' if (pd or ns or not sd) else 'false')
+        ctx.traces_validated += 1
+        if pred[(ns, sd, pd)] != want:
+            ctx.disagree('C06 first-fft-old', {'new-style, same dtype, padded': [ns, sd, pd], 'model': pred[(ns, sd, pd)], 'description': want})
+    rng = np.random.default_rng([ctx.seed, 6, 12])
+    combos = [(q, style, dt, 'scalar', 'forward', 'filter') for q in (1, 2) for style in FLIP_STYLES for dt in ('complex128', 'complex64', 'float64')]
+    for _ in range(ctx.scale(20, 150)):
+        combos.append((int(rng.integers(1, 4)), FLIP_STYLES[int(rng.integers(2))], ('complex128', 'complex64', 'float64')[int(rng.integers(3))],
+                       registry.KINDS[int(rng.integers(3))], ('forward', 'backward')[int(rng.integers(2))], ('filter', 'fresnel')[int(rng.integers(2))]))
+    seen = {}
+    for q, style, dt, kind, direction, via in combos:
+        restore = set_config({}, style)
+        fftn = fo._fft_module.fftn
+        compute_functions = fo.FourierFilter._compute_functions
+        rec = []
+        armed = []
+        try:
+            grid = hcipy.make_uniform_grid([int(rng.integers(4, 9)), int(rng.integers(4, 9))], [1.0, 1.0])
+            A = registry.dyadic_complex(rng, registry.field_shape(grid, kind), bits=4)
+            A = np.ascontiguousarray(A.real if dt == 'float64' else A.astype(dt))
+
+            def spy(x, *args, **kw):
+                if armed:       # transforms made while the filter builds its transfer function are not the filter's own
+                    rec.append((bool(np.shares_memory(buffer_of(x), caller[0])), bool(kw.get('overwrite_x', False))))
+                return fftn(x, *args, **kw)
+
+            def arm(self, field):
+                res = compute_functions(self, field)
+                armed.append(1)
+                return res
+            if via == 'filter':
+                op = hcipy.FourierFilter(grid, lambda g: hcipy.Field(np.exp(-0.125j * (g.x**2 + g.y**2)), g), q)
+                arg = hcipy.Field(A, grid)
+            else:
+                op = hcipy.FresnelPropagator(grid, 0.5, zero_padding=q)
+                arg = make_wf(hcipy.Field(A, grid), kind, 1.0, registry.STOKES[0])
+            # the caller's buffer: the array of the field handed to the filter (a Wavefront built from real values holds a complex copy)
+            caller = [buffer_of(arg.electric_field) if via == 'fresnel' else A]
+            fo._fft_module.fftn = spy
+            fo.FourierFilter._compute_functions = arm
+            with warnings.catch_warnings():
+                warnings.simplefilter('ignore')
+                getattr(op, direction)(arg)
+        except Exception as ex:     # noqa
+            ctx.disagree('C06 first-fft', {'q': q, 'style': style, 'dtype': dt, 'kind': kind, 'direction': direction, 'via': via,
+                                           'fault-while-observing': '%s: %s' % (type(ex).__name__, str(ex)[:160])})
+            continue
+        finally:
+            fo._fft_module.fftn = fftn
+            fo.FourierFilter._compute_functions = compute_functions
+            restore()
+        name = names[0] if q != 1 else names[1]
+        got = tuple('true' if b else 'false' for b in rec[0]) if rec else ('-', '-')
+        ctx.traces_validated += 1
+        ctx.count('first-fft:q=%d %s %s' % (q, style, 'real' if dt == 'float64' else 'complex'))
+        seen[(q != 1, got)] = seen.get((q != 1, got), 0) + 1
+        if got != pred[name][1:]:
+            ctx.disagree('C06 first-fft', {'q': q, 'style': style, 'dtype': dt, 'kind': kind, 'direction': direction, 'via': via,
+                                           'model (sharesInput, overwrite)': pred[name][1:], 'running code': got, 'program': name})
+        ctx.case(None, nontrivial_key=('first-fft', q, style, dt, kind, direction, via))
+    ctx.extra['first_fft_observations'] = {('padded' if p else 'unpadded') + ' shares=%s overwrite=%s' % g: n for (p, g), n in seen.items()}
+
+
 # ---------------------------------------------------------------------------------------------
 
 def plan(ctx):
@@ -1695,6 +1877,7 @@ def run(ctx):
     load_internal_declarations(ctx)
     history_tie(ctx)
     keep_excited_selftest(ctx)
+    first_fft_tie(ctx)
     internal_seen = {}
     registries, cases = plan(ctx)
     entries = registries[0]
